@@ -7,7 +7,7 @@ from pyvc.contract import Contract
 from pyvc.engine import LoopSpec, NS, Closure
 from pyvc.h5model import new_dataset
 from pyvc.models import SFmt, BytesOf, EncodedStr
-from pyvc.sym import SArr, SObj, SInt, SBool, SOpaque, Elem, And, Or, Not, Implies, Z, to_z3, wrap
+from pyvc.sym import seq_eq, SArr, SObj, SInt, SBool, SOpaque, Elem, And, Or, Not, Implies, Z, to_z3, wrap
 
 CACHED = "dclab/cached.py"
 CMOD = "dclab.cached"
@@ -138,9 +138,9 @@ class CacheCall(Contract):
     path = CACHED
     module = CMOD
     qualname = "Cache.__call__"
-    classes = {"Cache": (CACHED, "Cache")}
-    class_modules = {"Cache": CMOD}
-    inline = {"Cache._update_hash", "Cache._update_hash_framed"}
+    classes = {"Cache": (CACHED, "Cache"), "CacheClass": (CACHED, "Cache")}
+    class_modules = {"Cache": CMOD, "CacheClass": CMOD}
+    inline = {"Cache._update_hash", "Cache._update_hash_framed", "Cache._handout", "CacheClass._handout"}
     params = ("self", "args", "kwargs")
 
     def __init__(self, scenario):
@@ -163,7 +163,12 @@ class CacheCall(Contract):
         samples = ctx.int("samples", inp=True)
         flag = ctx.bool("ret_idx", inp=True)
         code = ctx.obj("Code", {"co_filename": "/x/downsampling.pyx"})
-        fresh = SOpaque(ctx.const("fresh_result", Elem))
+        # the function's result: a tuple of two arrays (as downsample_grid returns)
+        rx = ctx.arr("result_x", "F", dtype=np.dtype("float64"))
+        ry = ctx.arr("result_y", "F", dtype=np.dtype("float64"))
+        for x in (rx, ry):
+            x.item_shape = ()
+        fresh = (rx, ry)
         func = ctx.obj("FuncStub", {"__name__": "downsample_grid", "__doc__": "Content-based downsampling",
                                     "__code__": code, "_calls": [], "_fresh": fresh}, name="func")
         self_ = ctx.obj("Cache", {"func": func}, name="self")
@@ -189,7 +194,11 @@ class CacheCall(Contract):
                     return 0
             hk = EqualKey(("digest", "same-as-this-call"))
             self._g.hit_key = hk
-            self._g.hit_val = SOpaque(ctx.const("stored_result", Elem))
+            sx = ctx.arr("stored_x", "F", dtype=np.dtype("float64"))
+            sy = ctx.arr("stored_y", "F", dtype=np.dtype("float64"))
+            for x in (sx, sy):
+                x.item_shape = ()
+            self._g.hit_val = (sx, sy)
             cache = {k1: old1, hk: self._g.hit_val}
             keys = [k1, hk]
         self._cls = ctx.obj("CacheClass", {"_cache": cache, "_keys": keys}, name="Cache")
@@ -206,17 +215,25 @@ class CacheCall(Contract):
         posts += check_stream(hasher.fields["stream"], spec_stream(g.func, g.args, g.kwargs))
         ref = loc.get("ref")
         cache, keys = g.cls.fields["_cache"], g.cls.fields["_keys"]
+        def handed_out(res, stored):
+            """the caller gets arrays with the stored values that are not the stored objects (nor views of them)"""
+            ok = isinstance(res, tuple) and len(res) == len(stored) and all(
+                isinstance(r, SArr) and r is not s_ and r.root() is not s_.root() for r, s_ in zip(res, stored))
+            if not ok:
+                return z3.BoolVal(False)
+            return z3.And(*[seq_eq(r, s_) for r, s_ in zip(res, stored)])
         if self.scenario == "hit":
-            posts.append(("hit: the stored result is returned, the function is not called, the cache is unchanged",
-                          z3.BoolVal(result is g.hit_val and not g.func.fields["_calls"]
-                                     and len(keys) == 2 and len(cache) == 2)))
+            posts.append(("hit: the function is not called, the cache is unchanged",
+                          z3.BoolVal(not g.func.fields["_calls"] and len(keys) == 2 and len(cache) == 2
+                                     and any(v is g.hit_val for v in cache.values()))))
+            posts.append(("hit: the stored values are returned as arrays of the caller's own", handed_out(result, g.hit_val)))
             return posts
         posts.append(("miss: the function is called exactly once with the given arguments",
                       z3.BoolVal(len(g.func.fields["_calls"]) == 1
                                  and g.func.fields["_calls"][0][0] == g.args
                                  and g.func.fields["_calls"][0][1] == g.kwargs)))
-        posts.append(("miss: the fresh result is returned and stored under the key",
-                      z3.BoolVal(result is g.fresh and cache.get(ref) is g.fresh)))
+        posts.append(("miss: the fresh result is stored under the key", z3.BoolVal(cache.get(ref) is g.fresh)))
+        posts.append(("miss: the fresh values are returned as arrays of the caller's own", handed_out(result, g.fresh)))
         posts.append(("FIFO: at most MAX_SIZE keys, the oldest evicted, keys list == keys of the dict",
                       z3.BoolVal(len(keys) == 2 and keys[-1] is ref and keys[0] == ("digest", "other-2")
                                  and set(map(id, keys)) == set(map(id, cache.keys())))))
